@@ -75,6 +75,23 @@ first-order explicitly, under syntactic conditions checked here (anything else i
     `HTMLDependency.__init__` (pytr_c10b.py) / `Tag.__init__` (pytr_c15b.py, star binding `_call_star`) on a new, empty
     instance, under the conditions on the class that those plug-ins check in `_core.py` itself (`_core_plain_class`);
   * `HTML(e)`: `mkHTMLC20b` (`mkHTML`, `unsupported` for a `jsx` string: `UserString` keeps a `str` subclass instance as it is).
+
+`jsx.__new__`, `jsx.__add__`, `jsx_tag_create`:
+
+  * `jsx.__new__(cls, *args)` is translated for `cls = jsx` (the parameter is dropped): `super().__new__(cls, e)` in a class whose
+    only base is `str` is `str.__new__(jsx, e)`: `pyJsxNewC20b e` (a new `jsx` string with the text of the `str` `e`);
+  * `str.__add__(a, b)`: `pyStrAddC20b` (the plain-`str` concatenation of the texts when `b` is a `str`, also of a subclass;
+    otherwise `str.__add__` *returns* `NotImplemented`, a value the universe does not have: `unsupported`);
+  * `jsx(e)`: the translated `jsx.__new__` on the one positional argument, for the class `jsx` of this module (it defines
+    `__new__` and no `__init__`, so the call is `jsx.__new__(jsx, e)` followed by `str.__init__`, which does nothing);
+  * `jsx_tag_create`: the `def` of the function it returns binds a first-order closure value (`mkClosureC17`, the convention of
+    harness/pytr_c17.py: the name of the translated body and the captured values in the order of their first occurrence in the
+    body) — capture by value is what Python does because the captured variables are parameters `jsx_tag_create` never assigns —,
+    `create_tag.__name__ = name` is a functional update of that (fresh, never aliased before the `return`) value
+    (`pySetFuncNameC20b`: TypeError unless the name is a `str`); the body of the
+    closure (spec `jsx_tag_create.<inner>`) is translated as a function of the captured variables followed by its own `*args` and
+    `**kwargs`; `JSXTag(name, *args, allowedProps=allowedProps, **kwargs)` in it is the translated `JSXTag.__init__` on a new
+    instance (star binding of harness/pytr_c15b.py: a keyword called like a parameter of `__init__` raises TypeError).
 """
 from __future__ import annotations
 
@@ -88,9 +105,12 @@ CORE = "htmltools/_core.py"
 #: Lean names of this area's translations
 MINE = ("JSXTagAttrDict_setitemC20b", "JSXTagAttrDict_updateMapC20b", "JSXTagAttrDict_updateC20b", "JSXTagAttrDict_initC20b",
         "JSXTag_initC20b", "JSXTag_extendC20b", "JSXTag_appendC20b", "JSXTag_copyC20b",
-        "JSXTag_tagify_visitorC20b", "walk_attrs_and_childrenC20b", "lib_dependencyC20b", "JSXTag_tagifyC20b")
+        "JSXTag_tagify_visitorC20b", "walk_attrs_and_childrenC20b", "lib_dependencyC20b", "JSXTag_tagifyC20b",
+        "jsx_newC20b", "jsx_addC20b", "jsx_tag_createC20b", "jsx_create_tagC20b")
 VISITOR, WALK = "JSXTag_tagify_visitorC20b", "walk_attrs_and_childrenC20b"
 LIBDEP, TAGIFY = "lib_dependencyC20b", "JSXTag_tagifyC20b"
+JSX_NEW, JSX_ADD, CREATE, CREATE_INNER = "jsx_newC20b", "jsx_addC20b", "jsx_tag_createC20b", "jsx_create_tagC20b"
+CREATE_INNER_QUAL = "jsx_tag_create.<inner>"
 VISITOR_QUAL = "JSXTag.tagify.<inner>"
 WALK_PY = "_walk_attrs_and_children"
 
@@ -244,6 +264,10 @@ def expr_hook(fn, e):
         r = _tagify_expr_hook(fn, e)
         if r is not None:
             return r
+    if fn.spec.lean in (JSX_NEW, JSX_ADD, CREATE, CREATE_INNER):
+        r = _jsx_expr_hook(fn, e)
+        if r is not None:
+            return r
     if not isinstance(e, ast.Call):
         return None
     f = e.func
@@ -323,6 +347,8 @@ def stmt_hook(fn, ind, s):
     if fn.spec.lean in (VISITOR, WALK) and _walk_stmt_hook(fn, ind, s):
         return True
     if _tagify_stmt_hook(fn, ind, s):
+        return True
+    if _jsx_stmt_hook(fn, ind, s):
         return True
     import pytr_c14
     import pytr_c15b
@@ -814,6 +840,157 @@ def _tagify_stmt_hook(fn, ind, s):
     return False
 
 
+# ================================================================== jsx.__new__ / __add__, jsx_tag_create
+def _str_subclass(cls: ast.ClassDef | None) -> bool:
+    return (cls is not None and len(cls.bases) == 1 and isinstance(cls.bases[0], ast.Name) and cls.bases[0].id == "str"
+            and not cls.keywords and not cls.decorator_list)
+
+
+def _create_nodes():
+    mod = _mod(FILE)
+    outer = next((n for n in mod.body if isinstance(n, ast.FunctionDef) and n.name == "jsx_tag_create"), None)
+    if outer is None:
+        raise _T.Untranslatable("jsx_tag_create not found")
+    inner = [m for m in outer.body if isinstance(m, ast.FunctionDef)]
+    if len(inner) != 1:
+        raise _T.Untranslatable("jsx_tag_create: not exactly one nested function directly in its body")
+    return outer, inner[0]
+
+
+def create_closure_info() -> list[str]:
+    """the parameters of `jsx_tag_create` its nested function closes over, in the order of their first occurrence in its body;
+    raises Untranslatable unless capture by value is what Python does"""
+    T = _T
+    outer, g = _create_nodes()
+    why = f"nested function {g.name}: "
+    a = g.args
+    if g.decorator_list or a.posonlyargs or a.args or a.kwonlyargs or a.defaults or a.kw_defaults or not a.vararg or not a.kwarg:
+        raise T.Untranslatable(why + "decorated, or parameters other than (*args, **kwargs)")
+    for f in (outer, g):
+        for n in ast.walk(f):
+            if isinstance(n, (ast.Global, ast.Nonlocal, ast.Delete, ast.NamedExpr, ast.Yield, ast.YieldFrom, ast.Await, ast.With,
+                              ast.Try, ast.Import, ast.ImportFrom, ast.Lambda, ast.ClassDef, ast.ListComp, ast.SetComp, ast.DictComp,
+                              ast.GeneratorExp)) or (isinstance(n, ast.FunctionDef) and n is not outer and n is not g):
+                raise T.Untranslatable(why + f"{type(n).__name__} in the function or the one around it")
+    oa = outer.args
+    if oa.posonlyargs or oa.vararg or oa.kwarg or oa.kwonlyargs:
+        raise T.Untranslatable("jsx_tag_create: parameters other than plain positional ones")
+    outer_params = [x.arg for x in oa.args]
+    outer_assigned = set(T.Fn.assigned_names(outer))
+    mine = {a.vararg.arg, a.kwarg.arg} | set(T.Fn.assigned_names(g))
+    caps: list[str] = []
+    for n in _in_source_order(g):
+        if isinstance(n, ast.Name) and isinstance(n.ctx, ast.Load) and n.id not in mine and n.id not in caps:
+            if n.id in outer_assigned or n.id == g.name:
+                raise T.Untranslatable(why + f"closes over `{n.id}`, which the enclosing function (re)binds")
+            if n.id in outer_params:
+                caps.append(n.id)
+    if g.name in outer_params or g.name in outer_assigned:
+        raise T.Untranslatable(why + "its name is rebound in the enclosing function")
+    return caps
+
+
+def make_create_fn_class():
+    T = _T
+
+    class CreateInnerFn(T.Fn):
+        def __init__(self, spec, node, cls, known):
+            super().__init__(spec, node, cls, known)
+            self.captured = create_closure_info()
+            self.params = self.captured + self.params
+            self.all_params = self.captured + self.all_params
+            for p in self.all_params + self.locals:
+                if T.lname(p) in ("G", "fuel"):
+                    raise T.Untranslatable(f"the name {p} is reserved by the translation")
+
+    class CreateFn(T.Fn):
+        def __init__(self, spec, node, cls, known):
+            super().__init__(spec, node, cls, known)
+            for m in node.body:          # the nested `def` binds a local of this function
+                if isinstance(m, ast.FunctionDef) and m.name not in self.locals and m.name not in self.all_params:
+                    self.locals.append(m.name)
+
+    return CreateInnerFn, CreateFn
+
+
+def _jsx_expr_hook(fn, e):
+    T = _T
+    import pytr_c14
+    import pytr_c15b
+    if not isinstance(e, ast.Call):
+        return None
+    f = e.func
+    plain = not e.keywords and not any(isinstance(a, ast.Starred) for a in e.args)
+    # super().__new__(cls, e) in `class jsx(str)`
+    if (fn.spec.lean == JSX_NEW and pytr_c14.is_super_call(e, "__new__") and plain and len(e.args) == 2
+            and isinstance(e.args[0], ast.Name) and e.args[0].id == "cls" and fn.node.args.args and fn.node.args.args[0].arg == "cls"):
+        if not _str_subclass(fn.cls) or fn.cls.name != "jsx" or "cls" in fn.assigned_names(fn.node):
+            raise T.Untranslatable("super().__new__(cls, …) outside `class jsx(str)`")
+        return f"(← pyJsxNewC20b {fn.V(e.args[1])})"
+    # str.__add__(a, b)
+    if (isinstance(f, ast.Attribute) and f.attr == "__add__" and isinstance(f.value, ast.Name) and f.value.id == "str"
+            and not _shadowed(fn, "str") and plain and len(e.args) == 2 and not _bindings(_mod(fn.spec.file), "str")):
+        return f"(← pyStrAddC20b {fn.V(e.args[0])} {fn.V(e.args[1])})"
+    # jsx(e)
+    if isinstance(f, ast.Name) and f.id == "jsx" and not _shadowed(fn, "jsx") and plain and len(e.args) == 1:
+        info = fn.known.get(JSX_NEW)
+        if info is None or not info.available:
+            raise T.Untranslatable("jsx.__new__ is not translated")
+        bs = _bindings(_mod(fn.spec.file), "jsx")
+        if (len(bs) != 1 or not isinstance(bs[0], ast.ClassDef) or not _str_subclass(bs[0]) or pytr_c14.defines(bs[0], "__init__")
+                or pytr_c14.defines(bs[0], "__init_subclass__") or info.spec.file != fn.spec.file or info.spec.qual != "jsx.__new__"
+                or info.vararg is None or info.params or info.kwonly or info.kwarg):
+            raise T.Untranslatable("constructor call of jsx: not the plain `class jsx(str)` of this module")
+        return f"(← {JSX_NEW} G (PVal.tuple [{fn.V(e.args[0])}]))"
+    # JSXTag(name, *args, allowedProps=…, **kwargs) in the closure of jsx_tag_create
+    if isinstance(f, ast.Name) and f.id == "JSXTag" and not _shadowed(fn, "JSXTag") and fn.spec.lean == CREATE_INNER:
+        info = fn.known.get("JSXTag_initC20b")
+        if info is None or not info.available:
+            raise T.Untranslatable("JSXTag.__init__ is not translated")
+        if not pytr_c15b._class_ok(fn, "JSXTag", info, "object") or not info.spec.returns_self:
+            raise T.Untranslatable("constructor call of JSXTag: not the plain class of this module")
+        return pytr_c15b._call_star(fn, info, e.args, e.keywords, recv='(PVal.obj "JSXTag" [])')
+    return None
+
+
+def _jsx_stmt_hook(fn, ind, s):
+    T = _T
+    if fn.spec.lean != CREATE:
+        return False
+    outer, g = _create_nodes()
+    if isinstance(s, ast.FunctionDef):
+        if s.name != g.name:
+            raise T.Untranslatable("nested function other than the one jsx_tag_create returns")
+        inner = fn.known.get(CREATE_INNER)
+        if inner is None or not inner.available:
+            raise T.Untranslatable("the body of the function jsx_tag_create returns is not translated")
+        caps = create_closure_info()
+        # the closure value is a fresh object until it is returned: stored / passed nowhere else
+        uses = [n for n in ast.walk(outer) if isinstance(n, ast.Name) and n.id == g.name]
+        for n in uses:
+            ok = False
+            for st in outer.body:
+                if isinstance(st, ast.Return) and st.value is n:
+                    ok = True
+                if (isinstance(st, ast.Assign) and len(st.targets) == 1 and isinstance(st.targets[0], ast.Attribute)
+                        and st.targets[0].value is n):
+                    ok = True
+            if not ok:
+                raise T.Untranslatable(f"{g.name} is used other than in `{g.name}.a = e` / `return {g.name}`")
+        fn.fresh_objects.add(g.name)
+        fn.emit(ind, f'{fn.name(g.name)} := (mkClosureC17 "{CREATE_INNER_QUAL}" [{", ".join(fn.name(c) for c in caps)}])')
+        return True
+    # create_tag.__name__ = e: the name of a function object must be a `str`
+    if (isinstance(s, ast.Assign) and len(s.targets) == 1 and isinstance(s.targets[0], ast.Attribute)
+            and isinstance(s.targets[0].value, ast.Name) and s.targets[0].value.id == g.name):
+        if s.targets[0].attr != "__name__":
+            raise T.Untranslatable(f"assignment to {g.name}.{s.targets[0].attr}")
+        nm = fn.name(g.name)
+        fn.emit(ind, f"{nm} := (← pySetFuncNameC20b {nm} {fn.V(s.value)})")
+        return True
+    return False
+
+
 def register(T):
     global _T
     _T = T
@@ -831,13 +1008,21 @@ def register(T):
         F(FILE, WALK_PY, WALK, group="c20b_walk"),
         F(FILE, "_lib_dependency", LIBDEP),
         F(FILE, "JSXTag.tagify", TAGIFY, group="c20b_tagify"),
+        F(FILE, "jsx.__new__", JSX_NEW, drop_self=True),
+        F(FILE, "jsx.__add__", JSX_ADD),
+        F(FILE, CREATE_INNER_QUAL, CREATE_INNER, group="c20b_create_tag"),
+        F(FILE, "jsx_tag_create", CREATE),
     ]
+    CreateInnerFn, CreateFn = make_create_fn_class()
+    T.FN_CLASS[CREATE_INNER] = CreateInnerFn
+    T.FN_CLASS[CREATE] = CreateFn
     VisitorFn, WalkFn = make_fn_classes()
     T.FN_CLASS[VISITOR] = VisitorFn
     T.FN_CLASS[WALK] = WalkFn
     T.ARITY.update({"JSXTagAttrDict_setitemC20b": 3, "JSXTagAttrDict_updateMapC20b": 2, "JSXTagAttrDict_updateC20b": 3,
                     "JSXTagAttrDict_initC20b": 2, "JSXTag_initC20b": 5, "JSXTag_extendC20b": 2, "JSXTag_appendC20b": 2,
-                    "JSXTag_copyC20b": 1, VISITOR: 2, WALK: 2, LIBDEP: 2, TAGIFY: 1})
+                    "JSXTag_copyC20b": 1, VISITOR: 2, WALK: 2, LIBDEP: 2, TAGIFY: 1,
+                    JSX_NEW: 1, JSX_ADD: 2, CREATE_INNER: 4, CREATE: 2})
     # the children of a JSXTag are a TagList (`self.children = TagList(*args)` in `JSXTag.__init__`)
     T.FIELD_CLASS[("JSXTag", "children")] = "TagList"
     # … and its attrs a JSXTagAttrDict (`self.attrs = JSXTagAttrDict(**kwargs)`)
